@@ -102,6 +102,9 @@ type World struct {
 	Stump u.Stump
 	Insts []*Inst
 	Recs  []*BlockRec
+	// LeafOverride, if set, may replace the hash of the addIdx-th leaf added by the
+	// block that is being prepared (blockIdx = number of blocks committed so far).
+	LeafOverride func(blockIdx, addIdx int, before *rm.Model) (Hash, bool)
 }
 
 func NewWorld(tag uint64, cfgs []InstCfg) *World {
@@ -181,6 +184,14 @@ func (w *World) PrepareBlock(b gen.Block) *BlockRec {
 	after := w.M.Clone()
 	ctr := w.Ctr
 	_, rec.AddHashes = gen.ApplyToModel(after, b, w.Tag, &ctr)
+	if w.LeafOverride != nil {
+		for i := range rec.AddHashes {
+			if h, ok := w.LeafOverride(len(w.Recs), i, rec.Before); ok {
+				rec.AddHashes[i] = h
+				after.Leaves[len(rec.Before.Leaves)+i] = h
+			}
+		}
+	}
 	rec.After = after
 	for i, h := range rec.AddHashes {
 		l := u.Leaf{Hash: h}
@@ -297,7 +308,7 @@ func traits(rec *BlockRec) blockTraits {
 		// does the carry of the additions meet an empty root?
 		n := rec.PrevN
 		cur := mid.Clone()
-		for i := 0; i < rec.Blk.Adds && !t.OverwritesEmpty; i++ {
+		for i := 0; i < rec.Blk.Adds && i < 256 && !t.OverwritesEmpty; i++ { // a coverage counter only: capped for very large blocks
 			f := cur.Forest()
 			for hh := uint8(0); (n>>hh)&1 == 1; hh++ {
 				for _, tr := range f.Trees {
